@@ -147,13 +147,21 @@ pub fn handshake(rng: &mut Rng, kind: &str, budget: usize) -> Item {
             .int("ver", version(rng) as u64)
             .int("cipher", rng.u16() as u64)
             .opt_bytes("ext", opt_ext(rng, (b / 2).min(65535)).as_deref()),
-        "certificate" => it.list("certs", list(rng, 6, b / 4)),
+        "certificate" => {
+            if rng.chance(1, 10) {
+                // many small / empty certificates, or one large one
+                let n = *rng.pick(&[0usize, 1, 40, 200]);
+                it.list("certs", (0..n).map(|_| { let l = rng.below(3) as usize; rng.bytes(l) }).collect())
+            } else {
+                it.list("certs", list(rng, 6, b / 4))
+            }
+        }
         "server_key_exchange" => it.bytes("params", &blob(rng, b)),
         "certificate_request" => {
-            let types = blob(rng, 12);
+            let types = if rng.chance(1, 8) { let l = *rng.pick(&[127usize, 128, 129, 255]); rng.bytes(l) } else { blob(rng, 12) };
             let it = it.bytes("types", &types);
             let it = if rng.chance(2, 3) {
-                let n = rng.small_len(20);
+                let n = if rng.chance(1, 8) { *rng.pick(&[127usize, 128, 255, 256, 300]) } else { rng.small_len(20) };
                 it.bytes("sigalgs", &rng.bytes(n * 2))
             } else {
                 it.none("sigalgs")
@@ -170,7 +178,11 @@ pub fn handshake(rng: &mut Rng, kind: &str, budget: usize) -> Item {
         "certificate_verify" | "client_key_exchange" | "finished" => it.bytes("body", &blob(rng, b)),
         "certificate_status" => it.int("stype", rng.u8() as u64).bytes("blob", &blob(rng, b)),
         "key_update" => it.int("v", rng.u8() as u64),
-        "next_protocol" => it.bytes("proto", &blob(rng, 255.min(b / 2))).bytes("padding", &blob(rng, 255.min(b / 2))),
+        "next_protocol" => {
+            let pl = if rng.chance(1, 8) { *rng.pick(&[0usize, 127, 128, 255]) } else { rng.small_len(255.min(b / 2)) };
+            let dl = if rng.chance(1, 8) { *rng.pick(&[0usize, 127, 128, 255]) } else { rng.small_len(255.min(b / 2)) };
+            it.bytes("proto", &rng.bytes(pl)).bytes("padding", &rng.bytes(dl))
+        }
         _ => it,
     }
 }
